@@ -123,3 +123,9 @@ Example C09_concat_instance :
 Proof.
   split; [repeat constructor; intros _ m [<-|[]]; reflexivity|vm_compute; reflexivity].
 Qed.
+
+Theorem C09_linked_copy_rerun_refuted :
+  exists w c, (match tb_run as_written (w, fresh) [mkProg 1 0 2 true c] with Err EAttr _ => True | _ => False end)
+           /\ (match tb_run as_written (w, fresh) [mkProg 0 0 2 false c] with Ok _ => True | _ => False end).
+Proof. exact linked_copy_rerun_refuted. Qed.
+Print Assumptions C09_linked_copy_rerun_refuted.
